@@ -209,7 +209,9 @@ def emit(path, cache_dir):
          "namespace Vita.C18.Gen", "",
          "/-- call sites: file, enclosing function, callee, kind of the operands -/",
          "def users : List (String × String × String × String) := ["]
-    rows = sorted({(u["file"], u["fn"], u["callee"], u["kind"]) for u in us})
+    # a site inside libstdc++ is filed under "<libstdc++>", the header goes into the function label
+    rows = sorted({(("<libstdc++>", u["file"][len("<libstdc++>/"):] + ": " + u["fn"]) if u["file"].startswith("<libstdc++>/")
+                    else (u["file"], u["fn"])) + (u["callee"], u["kind"]) for u in us})
     for i, r in enumerate(rows):
         L.append("  (%s)%s" % (", ".join(lean_str(x) for x in r), "," if i + 1 < len(rows) else ""))
     L += ["]", "", "end Vita.C18.Gen", ""]
